@@ -775,6 +775,157 @@ def rule_r7(chk, prog):
     chk.floor('C09.R7', 'records of finished runs', nrec, 1)
 
 
+# --------------------------------------------------------------------- R8
+def _name_template(fn, e, mod, depth=0):
+    """A path expression as a list of pieces ('c', text) | ('v', text)."""
+    if depth > 6:
+        return [('v', unparse(e))]
+    if isinstance(e, ast.Constant) and isinstance(e.value, str):
+        return [('c', e.value)]
+    if isinstance(e, ast.JoinedStr):
+        out = []
+        for v in e.values:
+            if isinstance(v, ast.Constant):
+                out.append(('c', str(v.value)))
+            else:
+                out.append(('v', unparse(v.value)))
+        return out
+    if isinstance(e, ast.BinOp) and isinstance(e.op, ast.Add):
+        return _name_template(fn, e.left, mod, depth + 1) + _name_template(
+            fn, e.right, mod, depth + 1)
+    if isinstance(e, ast.Call) and call_name(e) == 'os.path.join':
+        out = []
+        for k, a in enumerate(e.args):
+            if k:
+                out.append(('c', '/'))
+            out.extend(_name_template(fn, a, mod, depth + 1))
+        return out
+    if isinstance(e, ast.Call) and isinstance(
+            e.func, ast.Attribute) and e.func.attr == 'format' and \
+            isinstance(e.func.value, ast.Constant) and isinstance(
+                e.func.value.value, str) and not e.keywords:
+        parts = e.func.value.value.split('{}')
+        if len(parts) == len(e.args) + 1 and '{' not in ''.join(parts):
+            out = []
+            for k, c in enumerate(parts):
+                if c:
+                    out.append(('c', c))
+                if k < len(e.args):
+                    out.append(('v', unparse(e.args[k])))
+            return out
+    if isinstance(e, ast.Name):
+        # a local with one definition, or a module global set in one place
+        defs = []
+        if fn is not None:
+            defs = [st.value for st in walk_no_nested(fn)
+                    if isinstance(st, ast.Assign) and any(
+                        isinstance(t, ast.Name) and t.id == e.id
+                        for t in st.targets)
+                    and e.id not in global_decls(fn)]
+        if not defs:
+            for q, g in mod.funcs.items():
+                if e.id in global_decls(g):
+                    for st in walk_no_nested(g):
+                        if isinstance(st, ast.Assign) and any(
+                                isinstance(t, ast.Name) and t.id == e.id
+                                for t in st.targets):
+                            defs.append((g, st.value))
+            defs = [d for d in defs if not (isinstance(
+                d[1], ast.Constant) and d[1].value is None)]
+            if len(defs) == 1:
+                return _name_template(defs[0][0], defs[0][1], mod, depth + 1)
+            return [('v', e.id)]
+        if len(defs) == 1:
+            return _name_template(fn, defs[0], mod, depth + 1)
+    return [('v', unparse(e))]
+
+
+def _merge(t):
+    out = []
+    for k, v in t:
+        if k == 'c' and out and out[-1][0] == 'c':
+            out[-1] = ('c', out[-1][1] + v)
+        elif not (k == 'c' and v == ''):
+            out.append((k, v))
+    return out
+
+
+def provably_distinct(a, b):
+    """Two name templates denote different strings for every value of
+    their variable parts (sufficient conditions only)."""
+    a, b = _merge(a), _merge(b)
+    # the same leading / trailing pieces contribute the same text
+    while a and b and a[0] == b[0]:
+        a, b = a[1:], b[1:]
+    while a and b and a[-1] == b[-1]:
+        a, b = a[:-1], b[:-1]
+    if not a and not b:
+        return False
+    if all(k == 'c' for k, _ in a) and all(k == 'c' for k, _ in b):
+        return a != b
+    pa = a[0][1] if a and a[0][0] == 'c' else ''
+    pb = b[0][1] if b and b[0][0] == 'c' else ''
+    if not pa.startswith(pb) and not pb.startswith(pa):
+        return True
+    sa = a[-1][1] if a and a[-1][0] == 'c' else ''
+    sb = b[-1][1] if b and b[-1][0] == 'c' else ''
+    if not sa.endswith(sb) and not sb.endswith(sa):
+        return True
+    va = [v for k, v in a if k == 'v']
+    vb = [v for k, v in b if k == 'v']
+    if va == vb:
+        la = sum(len(v) for k, v in a if k == 'c')
+        lb = sum(len(v) for k, v in b if k == 'c')
+        if la != lb:
+            return True
+    return False
+
+
+def rule_r8(chk, prog):
+    chk.rule('C09.R8', 'the private copies of the command and of the '
+             'cross-check command, and the candidate file, have names that '
+             'differ for every option value: each command runs its own '
+             'executable')
+    t = prog.mod('tmpfiles')
+    dests = []
+    for q, fn in t.funcs.items():
+        for c in calls_in(fn):
+            if (call_name(c) or '') in ('shutil.copy', 'shutil.copy2',
+                                        'shutil.copyfile') and len(
+                                            c.args) >= 2 and opt_read(
+                                                c.args[0].value if isinstance(
+                                                    c.args[0], ast.Subscript)
+                                                else c.args[0]) in (
+                                                    'cmd', 'cmd_cc'):
+                which = opt_read(c.args[0].value if isinstance(
+                    c.args[0], ast.Subscript) else c.args[0])
+                dests.append((which, _name_template(fn, c.args[1], t), c,
+                              q))
+    chk.floor('C09.R8', 'copies of command executables', len(dests), 2)
+    g = t.func('get_tmp_filename')
+    rets = [n for n in walk_no_nested(g) if isinstance(n, ast.Return)]
+    if len(rets) == 1:
+        dests.append(('candidate file', _name_template(g, rets[0].value, t),
+                      rets[0], 'get_tmp_filename'))
+
+    def show(tp):
+        return ''.join(v if k == 'c' else '<' + v + '>'
+                       for k, v in _merge(tp))
+
+    for (wa, ta, ca, qa), (wb, tb, cb, qb) in itertools.combinations(
+            dests, 2):
+        if wa == wb:
+            continue
+        ok = provably_distinct(ta, tb)
+        chk.check('C09.R8', f'tmpfiles.{qa}', f'{wa} vs {wb}', ok,
+                  f'the copy of {wa} is named {show(ta)} and {wb} is named '
+                  f'{show(tb)}: for suitable option values both are the same '
+                  'file (e.g. two commands with the same base name), the '
+                  'second copy replaces the first and one of the commands '
+                  'is run with the other\'s executable',
+                  loc=t.loc(ca), nontrivial=True)
+
+
 def run(tier):
     prog = Program()
     chk = Check(
@@ -810,6 +961,7 @@ def run(tier):
     chk.guard(rule_r5, chk, prog)
     chk.guard(rule_r6, chk, prog)
     chk.guard(rule_r7, chk, prog)
+    chk.guard(rule_r8, chk, prog)
     extra = None
     if tier == 'thorough':
         from .. import selftest
